@@ -32,7 +32,9 @@ class Bench:
 
 
 def per_test_truth(m):
-    return {l.split(" ")[1]: tuple(int(x) for x in l.split(" ")[2:6]) for l in m.lines if l.startswith("ttruth ")}
+    """{path: (passes, failures, skips, exceptions, failing checks executed)}; the last differs from `failures`
+    only when the process died between printing a failure message and delivering its record."""
+    return {l.split(" ")[1]: tuple(int(x) for x in l.split(" ")[2:7]) for l in m.lines if l.startswith("ttruth ")}
 
 
 def observed_totals(o, reporter):
@@ -98,8 +100,8 @@ def oracle_C03(scen, m, o, reporter):
         obs = observed_per_test(o, reporter, scen)
         for path, c in tt.items():
             got = obs.get(path, [0, 0])
-            if got[0] != c[1] or got[1] != c[3]:
-                errs.append(f"test {path}: {got[0]} failure / {got[1]} exception lines name it, truth is {c[1]} / {c[3]}")
+            if got[0] != c[4] or got[1] != c[3]:
+                errs.append(f"test {path}: {got[0]} failure / {got[1]} exception lines name it, truth is {c[4]} failing checks executed / {c[3]} exceptions")
         for path in obs:
             if path not in tt and any(obs[path]):
                 errs.append(f"lines attributed to unknown test {path}")
@@ -123,7 +125,7 @@ def oracle_C03(scen, m, o, reporter):
             ok = c[1] + c[3] == 0
             if ok != ("success" in status[name]):
                 errs.append(f"cute marks {name} {status[name]} but truth {c}")
-            if (c[1] > 0) != ("failure" in status[name]):
+            if (c[4] > 0) != ("failure" in status[name]):
                 errs.append(f"cute shows {status[name]} for {name} whose truth is {c}: a failure message is missing or spurious")
             if (c[3] > 0) != ("error" in status[name]):
                 errs.append(f"cute shows {status[name]} for {name} whose truth is {c}: an error line is missing or spurious")
@@ -133,14 +135,8 @@ def oracle_C03(scen, m, o, reporter):
 def facts_of(scen, m):
     """Structural facts for known-finding predicates."""
     f = {"mode": scen.mode.split(":")[0]}
-    skip_then_die = False
-    for p, t in scen.root.tests():
-        acts = t.setup + t.body + t.teardown if t.ctx else t.body
-        seen_skip = False
-        for a in acts:
-            if a == "S": seen_skip = True
-            if a[0] in "KEUZ" and seen_skip: skip_then_die = True
-    f["skip_then_die"] = skip_then_die
+    # an instance of F02: the model says the test's process ended abnormally after it had sent a `skipped` record
+    f["skip_then_die"] = bool(m) and any(l.startswith("notok ") for l in m.lines)
     f["inproc_uexit"] = scen.mode != "fork" and any(a == "U" for _, t in scen.root.tests() for a in t.acts() if not t.x)
     return f
 
